@@ -441,12 +441,41 @@ impl Prop for C08 {
                 }
             }
             cx.set_exhaustive("every_cut_offset_of_first_request_x_second_step_x_budget_0to3", count);
+            // every split point of small bodies (pure fragmentation, no fault): plain and chunked transfer encoding
+            let mut splits = 0u64;
+            'split: for &len in &lens {
+                for k in 1..len.max(2) {
+                    for chunked in [false, true] {
+                        index += 1;
+                        if !cx.mine(index) {
+                            continue;
+                        }
+                        let a = (len / 3).max(1);
+                        let ranges = vec![RangeSpec { start: 9000, len: a, rel: 0 }, RangeSpec { start: 0, len: a, rel: 1 }, RangeSpec { start: 0, len: len.saturating_sub(2 * a).max(1), rel: 1 }];
+                        // pieces [k, rest...]: the first flush ends after k bytes
+                        let case = HttpCase { data_len: 400, seed: len as u32 + 77, ranges, steps: vec![], budget: 0, pieces: vec![k.min(255) as u8, 255], chunked, read_at: Some((3, len)) };
+                        splits += 1;
+                        let key = key_of(&case);
+                        if !cx.eval_case("splits", &case, key, |rec| {
+                            run_http(&case, rec)?;
+                            rec.nontrivial = true;
+                            rec.class("body_split_point_enumerated");
+                            Ok(())
+                        }) && cx.stats.failures.len() >= 3
+                        {
+                            break 'split;
+                        }
+                    }
+                }
+            }
+            cx.set_exhaustive("every_split_point_of_small_bodies_plain_and_chunked", splits);
         }
         cx.run_prop("http", t.pick(6_000, 120_000), http_strategy(), run_http);
     }
     fn replay(&self, _cx: &mut WorkerCtx, variant: &str, case: &Value) -> Result<(), String> {
         let mut rec = CaseRec::default();
         match variant {
+            "splits" | "cuts" => run_http(&serde_json::from_value(case.clone()).map_err(|e| e.to_string())?, &mut rec),
             "local" => run_local(&serde_json::from_value(case.clone()).map_err(|e| e.to_string())?, &mut rec),
             _ => run_http(&serde_json::from_value(case.clone()).map_err(|e| e.to_string())?, &mut rec),
         }
